@@ -697,7 +697,7 @@ node, as go/types guarantees) returns the object registered under the type's own
 theorem walk_named_idx (bt : List Builtin) (F : Facts) (v2 : Bool) (fuel : Nat) (u : U) (g : Nat) (un : Option Name)
     (und : Nat) (ms : List GMethod) (origUnd : Nat) (hn : F.node g = .named und ms [] origUnd)
     (hund : isAliasUnder (F.node und) = true ∨ ∃ K kids, shape v2 (F.node und) = some (K, kids))
-    (horig : ∃ K kids, shape v2 (F.node origUnd) = some (K, kids))
+    (horig : isAliasUnder (F.node und) = false → (v2 && isStructOrIface (F.node und)) = true → ∃ K kids, shape v2 (F.node origUnd) = some (K, kids))
     (u' : U) (o : Nat) (h : Inv bt u) (hw : walk bt F v2 (fuel + 1) u g un = some (u', o)) :
     AL.lookup (nameOf v2 (F.str g)) u'.types = some o := by
   have ih := walk_inv bt F v2 fuel
@@ -767,7 +767,7 @@ theorem walk_named_idx (bt : List Builtin) (F : Facts) (v2 : Bool) (fuel : Nat) 
         | some p =>
           obtain ⟨u3, o3⟩ := p
           simp only [hw2] at hw
-          have l3 := shapeWalk origUnd _ _ u3 o3 horig h2 hw2
+          have l3 := shapeWalk origUnd _ _ u3 o3 (horig (by simpa using ha) hs) h2 hw2
           have p3 := ih _ _ _ _ _ h2 hw2
           obtain ⟨h4, g4⟩ := modify_inv (o := o3) (f := fun ob => { ob with tparams := [] })
             (fun ob _ => ⟨rfl, fun _ => rfl, fun r hr => .inl (by
